@@ -19,7 +19,7 @@ from sa.facts import Program, walk
 from sa.sym import I, ZERO
 
 P = lambda p, f: sym.arrow(sym.sym(p), f)
-NOINLINE = summ.InlineLib(only=lambda f: False)
+NOINLINE = summ.LOCAL_HELPERS
 
 TRUTH = {
     "NAND": lambda a, b: 1 - (a & b), "OR": lambda a, b: a | b, "AND": lambda a, b: a & b, "XOR": lambda a, b: a ^ b,
